@@ -2,8 +2,10 @@
 //! (DESIGN.md §12): how a model is written, how a source is read into an observation.
 
 pub mod align;
+pub mod cram;
 pub mod index;
 pub mod kinds;
+pub mod query;
 pub mod text;
 pub mod variant;
 
